@@ -1,5 +1,6 @@
 """C15 - each column is found in its file, under any name (narrow claim)."""
 from rules import paths as PT
+from rules import payload as O
 
 
 def run(ctx):
@@ -7,12 +8,15 @@ def run(ctx):
     ctx.run(PT.set_rules)
     ctx.run(PT.flw11_digest_when_modified)
     ctx.run(PT.ord8_routing_tables)
+    ctx.run(O.ord17_loaded_mark_after_handles)
     return ctx.finish(
         'Static rules: every path below the tables directory is tables_path / '
         'sanitize_table_name(t) / partition_filename(id, key) and every wal path is a formatted u64; '
         'the acceptance sets of the two name predicates exclude path separators and NUL (constant '
         'folding of the predicates on the forbidden characters) and bound the length; a modified '
         'table name always gets the SHA-256 of the original appended; columns are sorted before '
-        'grouping and the three builders of the last-column index agree. The range lookup itself '
+        'grouping and the three builders of the last-column index agree; a file is marked as loaded '
+        '(which makes a name without a handle read as "absent") only after the handles of its columns '
+        'are installed. The range lookup itself '
         'and hash collisions are NOT decided.',
         trusted_base=['rustc MIR printer of the pinned toolchain', 'mirlib text parser', 'syn'])
